@@ -32,6 +32,8 @@ type c17Cfg struct {
 	// Fallback (TLS=starttls only): the Client uses WithTLSPortPolicy(opportunistic), the dial to the primary port is
 	// refused and the stalls hit the connection to the fallback port
 	Fallback bool `json:"fallback,omitempty"`
+	// NoNoop: the Client is created with WithoutNoop() (no NOOP probe before an operation)
+	NoNoop bool `json:"nonoop,omitempty"`
 }
 
 type c17Case struct {
@@ -116,6 +118,9 @@ func c17Exec(r *vf.Run, cfg c17Cfg, c *vf.Chooser) (keys, whats []string) {
 		}
 	case 2:
 		opts = append(opts, mail.WithSSL())
+	}
+	if cfg.NoNoop {
+		opts = append(opts, mail.WithoutNoop())
 	}
 	switch cfg.Auth {
 	case 1:
@@ -295,7 +300,7 @@ func init() {
 	vf.Register(&vf.Check{
 		ID: "C17", Title: "every network operation is bounded by the configured timeout",
 		Run: func(r *vf.Run) {
-			r.SetRule("one stall (server silent, connection open) at every command position of the dialogue — greeting, EHLO, STARTTLS, inside the TLS handshake, every AUTH step, NOOP, MAIL, each RCPT, DATA, mid-content (server stops reading), end-of-data, RSET, QUIT — × TLS mode {none, STARTTLS, implicit} × auth {none, PLAIN, LOGIN, SCRAM-SHA-256} × entry point {DialWithContext, DialAndSend, Send, Reset, Send after an idle hour} × caller context with/without own deadline × (STARTTLS) the connection to the fallback port after the primary port refused × history {none, then Reset / Send / Close on the same Client while the server stays silent}; oracle is logical: whenever the client blocks on the silent peer a deadline must be armed on the connection and, on the connection's virtual clock (advanced by every wait the client sat through), end <= call start + timeout + 1.5 s — for EVERY wait of the call, so re-arming after a timeout and waiting again is seen; distinct by (configuration, stall position)")
+			r.SetRule("one stall (server silent, connection open) at every command position of the dialogue — greeting, EHLO, STARTTLS, inside the TLS handshake, every AUTH step, NOOP, MAIL, each RCPT, DATA, mid-content (server stops reading), end-of-data, RSET, QUIT — × TLS mode {none, STARTTLS, implicit} × auth {none, PLAIN, LOGIN, SCRAM-SHA-256} × entry point {DialWithContext, DialAndSend, Send, Reset, Send after an idle hour} × caller context with/without own deadline × Client with/without WithoutNoop() × (STARTTLS) the connection to the fallback port after the primary port refused × history {none, then Reset / Send / Close on the same Client while the server stays silent}; oracle is logical: whenever the client blocks on the silent peer a deadline must be armed on the connection and, on the connection's virtual clock (advanced by every wait the client sat through), end <= call start + timeout + 1.5 s — for EVERY wait of the call, so re-arming after a timeout and waiting again is seen; distinct by (configuration, stall position)")
 			r.Assume("net.Conn deadline semantics as documented (a blocked Read/Write returns at the armed deadline; with none armed it never returns)",
 				"the caller's context is not a bound: the property promises the configured timeout",
 				"idle time is simulated by skewing the connection's clock by one hour")
@@ -319,7 +324,13 @@ func init() {
 									cfgs = append(cfgs, c17Cfg{TLS: tlsm, Auth: a, Entry: e, Follow: f})
 								}
 							}
-							if tlsm > 0 && e <= 1 && a == 0 {
+							if !cd && a <= 1 {
+							cfgs = append(cfgs, c17Cfg{TLS: tlsm, Auth: a, Entry: e, NoNoop: true})
+							if e >= 1 && e != 3 && a == 0 {
+								cfgs = append(cfgs, c17Cfg{TLS: tlsm, Auth: a, Entry: e, NoNoop: true, Follow: 2}, c17Cfg{TLS: tlsm, Auth: a, Entry: e, NoNoop: true, WS: 200}, c17Cfg{TLS: tlsm, Auth: a, Entry: e, NoNoop: true, Msgs: 3})
+							}
+						}
+						if tlsm > 0 && e <= 1 && a == 0 {
 								cfgs = append(cfgs, c17Cfg{TLS: tlsm, Auth: a, Entry: e, HS: 1, CtxDL: cd})
 							}
 							if (e == 1 || e == 2) && a == 0 && !cd {
